@@ -412,6 +412,27 @@ def impl(case):
         raise
     except Exception as e:
         out['compile'] = _exc(e) + ['too large' in str(e)]
+    # the other public entry points of the same pipeline: compile_prolog_from_file and the command line (yldpc)
+    try:
+        import os, click.testing
+        d = os.path.join(os.path.dirname(os.path.dirname(os.path.dirname(os.path.abspath(__file__)))), '.work', 'c10files')
+        os.makedirs(d, exist_ok=True)
+        path = os.path.join(d, 'case-%d.pl' % os.getpid())
+        with open(path, 'wb') as f:
+            f.write(src.encode('utf-8'))
+        try:
+            out['file'] = ['ok', C.compile_prolog_from_file(path)]
+        except RecursionError:
+            raise
+        except Exception as e:
+            out['file'] = _exc(e)
+        res = click.testing.CliRunner().invoke(C.main, [path])
+        out['cli'] = [res.exit_code, res.output if res.exit_code == 0 else ('def ' in (res.output or ''))]
+        os.unlink(path)
+    except RecursionError:
+        raise
+    except UnicodeEncodeError:
+        out['file'] = out['cli'] = None
     try:
         out['ast'] = ['ok', ast_io.impl_parse(src)]
     except RecursionError:
@@ -511,6 +532,18 @@ def oracle(case, io):
         want = sorted({'%s_%d' % (g[0], g[1]) for g in io['ast'][1]})
         if io['compile'][1] != want:
             return 'compiled code defines %r but the text has clauses for %r' % (io['compile'][1], want)
+    # one pipeline behind every entry point: same verdict, same text; a refused text leaves no compiled output at all
+    if io.get('file') is not None:
+        if _accepted(io):
+            if io['file'] != ['ok', io['compile'][2]]:
+                return 'compile_prolog_from_file disagrees with compile_prolog_from_string on an accepted text: %r' % (io['file'][:2],)
+            if io['cli'] != [0, io['compile'][2]]:
+                return 'the command line compiler does not print the library\'s text for an accepted text (exit code %r)' % (io['cli'][0],)
+        else:
+            if io['file'][0] == 'ok':
+                return 'compile_prolog_from_file returns code for a text that compile_prolog_from_string refuses (%s)' % io['compile'][1]
+            if io['cli'][0] == 0 or io['cli'][1]:
+                return 'the command line compiler exits with %r / emits definitions for a text that the library refuses (%s)' % (io['cli'][0], io['compile'][1])
     if 'expect_ast' in case:
         if io['ast'][0] != 'ok':
             return 'a program printed from an AST is refused (%s)' % io['ast'][1]
